@@ -110,15 +110,22 @@ class CtxValue(tuple):
     defs = ()
 
 
+_CTX_UID = [0]
+
+
 def _ctx(ex, st, s1, s2, window, penalty, max_step, psi_1b, psi_2b, metric, ndim=0):
     raw = make_ctx(ex, st, s1, s2, window, penalty, max_step, psi_1b, psi_2b, metric, ndim)
     names = ['a1', 'o1', 'r', 'a2', 'o2', 'c', 'w', 'pen', 'mstep', 'p1b', 'p2b', 'metric', 'nd']
     out, defs = [], []
+    # every evaluation names its derived components afresh, so that a caller's context and the context of a callee
+    # contract bound at a call site never share a constant
+    _CTX_UID[0] += 1
+    uid = _CTX_UID[0]
     for n, t in zip(names, raw):
         if z3.is_const(t) or z3.is_int_value(t):
             out.append(t)
         else:
-            k = z3.Const('ctx_' + n, t.sort())
+            k = z3.Const('ctx%d_%s' % (uid, n), t.sort())
             defs.append(k == t)
             out.append(k)
     v = CtxValue(('dtwctx',) + tuple(out))
